@@ -656,6 +656,21 @@ def tree_flatten_obj(x):
             return out
 
         return [l for p in parts for l in p[0]], rebuild
+    if isinstance(x, Module) and not (hasattr(x, "tree_flatten") and hasattr(type(x), "tree_unflatten")):
+        # equinox.Module: array-valued fields (recursively) are leaves, everything else is static
+        names = list(vars(x).keys())
+        parts = [tree_flatten_obj(getattr(x, n)) for n in names]
+        ns = [len(p[0]) for p in parts]
+
+        def rebuild_m(ls):
+            o = object.__new__(type(x))
+            pos = 0
+            for n, (_, rb), k in zip(names, parts, ns):
+                object.__setattr__(o, n, rb(ls[pos:pos + k]))
+                pos += k
+            return o
+
+        return [l for p in parts for l in p[0]], rebuild_m
     if hasattr(x, "tree_flatten") and hasattr(type(x), "tree_unflatten"):
         children, aux = x.tree_flatten()
         leaves, rb = tree_flatten_obj(tuple(children))
